@@ -2,58 +2,77 @@
   C11 (D) — the store's rotation / flush protocol (model: Comet/Conc/Rotation.lean).
   Property theorems only.
 
-  FULL statement (`NoAddFailsOrIsLost`): in every interleaving, no add fails and every
-  acknowledged document stays visible (in a memtable of the queue or in a segment).
-  It is FALSE for the code as it is (known finding D15-memtable-add-after-unlock):
-
-    add_on_frozen_fails     3-region, two-thread witness: the add fails with
-                            "memtable is frozen" merely because a rotation ran between its
-                            pick and its check region                               — negation
-    add_after_flush_lost    6-region, two-thread witness: rotation, segment write and
-                            queue removal run between the add's frozen-check and its
-                            write; the add returns nil, the document is in no queue
-                            memtable and in no segment                              — negation
-    rotation_partial        holds when no rotation is concurrent with an add        — partial
+  add_never_fails_or_lost  FULL, for the code as it is (22d1a03: memtableQueue.add writes while
+                           it still holds the queue lock): in every interleaving of adds,
+                           rotations and any number of concurrent flushers, no add fails and
+                           every acknowledged document is in a memtable of the queue or in a
+                           segment.                                                    — full
+  Former shape (queue lock released after the pick; model variant, defect D15 found by reading,
+  demonstrated by this check with directed schedules, repaired in /repo by 22d1a03):
+    add_on_frozen_fails    3-region, two-thread witness: "memtable is frozen"          — negation
+    add_after_flush_lost   7-region, two-thread witness: acknowledged and nowhere      — negation
+    rotation_partial       holds when no rotation is concurrent with an add            — partial
 -/
 import CometProofs.Conc.Rotation
 namespace Comet.Conc.Rot
 
-/-- FULL statement (false, see the two negations) -/
-def NoAddFailsOrIsLost : Prop :=
-  ∀ acts, (rrun acts).failed = [] ∧ ∀ d ∈ (rrun acts).acked, visibleDoc (rrun acts) d = true
+/-- the statement, for a shape of `add` -/
+def NoAddFailsOrIsLost (locked : Bool) : Prop :=
+  ∀ acts, (rrun locked acts).failed = [] ∧
+    ∀ d ∈ (rrun locked acts).acked, visibleDoc (rrun locked acts) d = true
+
+/-- **Partial** (explicit decidable hypothesis `noRotationDuringAdd`; either shape): if no
+    rotation — by `Rotate()` or inside another add's pick region — runs while an add is between
+    its pick and its write region, then (with any number of flushers at any point) no add fails
+    and every acknowledged document is in a memtable of the queue or in a segment. -/
+theorem rotation_partial (locked : Bool) (acts : List RAct)
+    (h : noRotationDuringAdd locked {} acts = true) :
+    (rrun locked acts).failed = [] ∧
+      ∀ d ∈ (rrun locked acts).acked, visibleDoc (rrun locked acts) d = true := by
+  have g := rgood_run locked acts {} rgood_init h
+  exact ⟨g.noFail, g.ackVis⟩
+
+/-- **(D) headline, full strength for the code as it is**: with the queue-locked add, in EVERY
+    interleaving of adds (with or without rotation inside), `Rotate()`s and the snapshot /
+    segment-write / queue-removal regions of any number of flushers, no add fails and no
+    acknowledged document is lost. -/
+theorem add_never_fails_or_lost : NoAddFailsOrIsLost true := fun acts =>
+  rotation_partial true acts (noRotationDuringAdd_locked acts {} rfl rfl)
+
+/-- non-vacuity: the former shape's lost-write schedule, run with the locked add (where `pick`
+    is the whole add and `check` / `write` are not steps of any thread): the document ends up
+    in the segment; two flushers of the same memtable duplicate it, they do not lose it -/
+example :
+    let s := rrun true [.pick 1 7 false, .check 1, .rotate, .flushSnap 1, .flushSnap 2, .flushWrite 1,
+      .flushDrop 1, .flushWrite 2, .flushDrop 2, .write 1]
+    s.acked = [7] ∧ s.failed = [] ∧ s.segments = [7, 7] ∧ s.frozenQ = [] ∧ visibleDoc s 7 = true := by
+  decide
+
+/-! ### the former shape (model variant): why the unlocked window was a defect -/
 
 /-- thread 1 picks the mutable memtable, thread 2 rotates, thread 1's frozen-check fails -/
 theorem add_on_frozen_fails :
-    (rrun [.pick 1 7 false, .rotate, .check 1]).failed = [7] := by decide
+    (rrun false [.pick 1 7 false, .rotate, .check 1]).failed = [7] := by decide
 
-/-- thread 1 picks and passes the frozen-check; thread 2 rotates, writes the (empty) segment
-    and drops the memtable; thread 1 then writes document 7 into the dropped memtable and
-    returns nil: 7 is acknowledged and nowhere -/
+/-- thread 1 picks and passes the frozen-check; thread 2 rotates, snapshots, writes the (empty)
+    segment and drops the memtable; thread 1 then writes document 7 into the dropped memtable
+    and returns nil: 7 is acknowledged and nowhere -/
 theorem add_after_flush_lost :
-    let s := rrun [.pick 1 7 false, .check 1, .rotate, .flushWrite 0, .flushDrop 0, .write 1]
+    let s := rrun false [.pick 1 7 false, .check 1, .rotate, .flushSnap 2, .flushWrite 2, .flushDrop 2, .write 1]
     s.acked = [7] ∧ s.failed = [] ∧ visibleDoc s 7 = false := by decide
 
-theorem full_statement_false : ¬ NoAddFailsOrIsLost := by
+theorem former_shape_statement_false : ¬ NoAddFailsOrIsLost false := by
   intro h
   have := (h [.pick 1 7 false, .rotate, .check 1]).1
   revert this
   decide
 
-/-- **Partial** (explicit decidable hypothesis `noRotationDuringAdd`): if no rotation — by
-    `Rotate()` or inside another add's pick region — runs while an add is between its pick and
-    its write region, then in every such interleaving (with any number of flushes at any
-    point) no add fails and every acknowledged document is in a memtable of the queue or in a
-    segment. -/
-theorem rotation_partial (acts : List RAct) (h : noRotationDuringAdd {} acts = true) :
-    (rrun acts).failed = [] ∧ ∀ d ∈ (rrun acts).acked, visibleDoc (rrun acts) d = true := by
-  have g := rgood_run acts {} ⟨by simp, by simp, by simp, rfl, by simp, by simp⟩ h
-  exact ⟨g.noFail, g.ackVis⟩
-
-/-- the hypothesis is satisfiable by a non-trivial history: two adds around a rotation and a
-    complete flush; both documents stay visible (one in a segment, one in the mutable memtable) -/
-example : noRotationDuringAdd {}
-    [.pick 1 7 false, .check 1, .write 1, .pick 2 8 true, .check 2, .write 2, .flushWrite 0, .flushDrop 0] = true ∧
-    (rrun [.pick 1 7 false, .check 1, .write 1, .pick 2 8 true, .check 2, .write 2, .flushWrite 0,
-      .flushDrop 0]).segments = [7] := by decide
+/-- the hypothesis of `rotation_partial` is satisfiable by a non-trivial history of the former
+    shape: two adds around a rotation and a complete flush -/
+example : noRotationDuringAdd false {}
+    [.pick 1 7 false, .check 1, .write 1, .pick 2 8 true, .check 2, .write 2, .flushSnap 1,
+     .flushWrite 1, .flushDrop 1] = true ∧
+    (rrun false [.pick 1 7 false, .check 1, .write 1, .pick 2 8 true, .check 2, .write 2, .flushSnap 1,
+      .flushWrite 1, .flushDrop 1]).segments = [7] := by decide
 
 end Comet.Conc.Rot
